@@ -72,14 +72,14 @@ class _Chk:
             bad.append(("nchans", f"header {O.nchans} vs data {nc}"))
         if file_nbits is not None and O.nbits != file_nbits:
             bad.append(("nbits", f"header {O.nbits} vs on-disk {file_nbits}"))
-        if abs(O.tsamp - H.tsamp * tfactor) > 1e-12 * H.tsamp * tfactor:
+        if not (abs(O.tsamp - H.tsamp * tfactor) <= 1e-12 * H.tsamp * tfactor):
             bad.append(("tsamp", f"{O.tsamp!r} vs {H.tsamp * tfactor!r}"))
         dt = (O.tstart - H.tstart) * 86400.0 - start * H.tsamp
-        if abs(dt) > 5e-6:
+        if not (abs(dt) <= 5e-6):
             bad.append(("tstart", f"output tstart is off by {dt:.3e} s for start={start}"))
         if dm is not None:
             got = dm_field if dm_field is not None else O.dm
-            if abs(got - dm) > 1e-9 * max(1.0, abs(dm)):
+            if not (abs(got - dm) <= 1e-9 * max(1.0, abs(dm))):
                 bad.append(("dm", f"records {got!r}, applied {dm!r}"))
         if src is not None:
             of = np.asarray(O.chan_freqs, dtype=np.float64)
@@ -88,7 +88,7 @@ class _Chk:
             for i, members in enumerate(src):
                 f = self.infreq[members]
                 if len(members) == 1:
-                    if abs(of[i] - f[0]) > tol:
+                    if not (abs(of[i] - f[0]) <= tol):
                         bad.append(("chan_label", f"output channel {i} labelled {of[i]!r}, copied from input channel {members[0]} at {f[0]!r}"))
                         break
                 elif not (f.min() - tol <= of[i] <= f.max() + tol):
@@ -98,7 +98,7 @@ class _Chk:
                 fac = len(src[0]) if all(len(m) == len(src[0]) for m in src) else None
                 if fac is not None:
                     step = self.infreq[src[1][0]] - self.infreq[src[0][0]]
-                    if abs(O.foff - step) > tol * max(1, fac):
+                    if not (abs(O.foff - step) <= tol * max(1, fac)):
                         bad.append(("foff", f"header foff {O.foff!r}, actual spacing of the output channels {step!r}"))
         if bad:
             for field, msg in bad[:2]:
